@@ -22,6 +22,7 @@ pub fn program(name: &str) -> &'static [u8] {
         "P5" => cat(&[ins(0xbf, 1, 10, 0, 0), ins(0x85, 0, 1, 0, 1), ins(0x95, 0, 0, 0, 0),
                       ins(0xbf, 0, 1, 0, 0), ins(0x1f, 0, 10, 0, 0), ins(0x95, 0, 0, 0, 0)]),
         "P7" => cat(&[ins(0x30, 0, 0, 0, 0), ins(0x95, 0, 0, 0, 0)]),
+        "P8" => cat(&[ins(0x79, 0, 1, 0x50, 0), ins(0x79, 2, 1, 0x40, 0), ins(0x1f, 0, 2, 0, 0), ins(0x95, 0, 0, 0, 0)]),
         "P9" => cat(&[ins(0x79, 0, 1, 0x40, 0), ins(0x95, 0, 0, 0, 0)]),
         "PX" => cat(&[[0xff; 8]]),
         _ => panic!("program {name}"),
@@ -65,6 +66,7 @@ pub fn run_history(job: &Value) -> Value {
         progs.push("P7");
     }
     if kind == "fixed" {
+        progs.push("P8");
         progs.push("P9");
     }
     let layouts: Vec<&str> = if kind == "fixed" { vec!["A", "C"] } else { vec!["A"] };
@@ -92,6 +94,7 @@ pub fn run_history(job: &Value) -> Value {
     };
     let mut under_accept_all = false;
     let mut loaded_px = false;
+    let mut cur: Option<&str> = if events[0]["res"] == "ok" { first } else { None };
     for _ in 0..len {
         let choice = r.below(100);
         let (op, arg, res): (&str, Value, String);
@@ -113,6 +116,7 @@ pub fn run_history(job: &Value) -> Value {
             res = call(&mut || vm.set_program(program(p), layout(lay)).map(|_| "ok".to_string()));
             if res == "ok" {
                 loaded_px = p == "PX";
+                cur = Some(p);
             }
         } else if choice < 37 {
             let mut v = *r.pick(&["acceptAll", "rejectAll", "custom"]);
@@ -143,13 +147,21 @@ pub fn run_history(job: &Value) -> Value {
             arg = json!("none");
             res = call(&mut || vm.cranelift_compile().map(|_| "ok".to_string()));
         } else {
-            let k = *r.pick(&["pa", "pb"]);
+            let mut k = *r.pick(&["pa", "pb", "pc", "pe", "pa", "pe"]);
             let engine = if choice < 80 { "interp" } else if choice < 91 { "jit" } else { "cl" };
+            if engine != "interp" && k == "pe" && cur == Some("P7") {
+                k = "pc"; // compiled code has no run-time checks: the load would fault
+            }
             op = match engine { "interp" => "exec", "jit" => "exec_jit", _ => "exec_cl" };
             arg = json!(k);
-            let base = if k == "pa" { PA_BASE } else { PB_BASE };
+            let base = if k == "pb" { PB_BASE } else { PA_BASE };
             res = call(&mut || {
-                let pkt = if k == "pa" { pa.slice() } else { pb.slice() };
+                let pkt: &mut [u8] = match k {
+                    "pa" => pa.slice(),
+                    "pb" => pb.slice(),
+                    "pc" => &mut pa.slice()[..8],
+                    _ => &mut [],
+                };
                 vm.exec(engine, pkt, mb.slice()).map(|v| if v == base { "pkt".to_string() } else { v.to_string() })
             });
         }
